@@ -1287,7 +1287,9 @@ func (ip *Interp) refineEdge(act *activation, s *State, cond ssa.Value, cb *Bool
 		return
 	}
 	if cb != nil && cb.NilOf != nil {
-		if v, ok := cb.NilOf.(ssa.Value); ok {
+		if v, ok := cb.NilOf.(ssa.Value); ok && v.Parent() == act.fn {
+			// (a test made in a callee and handed back as a boolean refines nothing here:
+			// the tested value is not one of this function's)
 			if _, isConst := v.(*ssa.Const); !isConst {
 				curV := ip.get(act, s, v)
 				var nv Val
@@ -1843,11 +1845,24 @@ func (ip *Interp) compare(op string, x, y Val, xs, ys ssa.Value) Val {
 			}
 		}
 		// an undecided nil test still tells the edges what the value is
+		// (named after the value where it has an identity, so that merges under the test
+		// are gated exactly)
+		nilKey := func(v Val) string {
+			switch t := v.(type) {
+			case *Slot:
+				return "isnil:" + ValKey(t)
+			case *Top:
+				if t.Key != "" {
+					return "isnil:" + t.Key
+				}
+			}
+			return ""
+		}
 		if isNilConst(ys) && !isNilConst(xs) {
-			return &Bool{K: TriTop, NilOf: xs, NilSense: op == "=="}
+			return &Bool{K: TriTop, Key: nilKey(x), Neg: nilKey(x) != "" && op == "!=", NilOf: xs, NilSense: op == "=="}
 		}
 		if isNilConst(xs) && !isNilConst(ys) {
-			return &Bool{K: TriTop, NilOf: ys, NilSense: op == "=="}
+			return &Bool{K: TriTop, Key: nilKey(y), Neg: nilKey(y) != "" && op == "!=", NilOf: ys, NilSense: op == "=="}
 		}
 	}
 	return &Bool{K: TriTop}
